@@ -770,20 +770,27 @@ func (f *transformationCallable) updateEntries(item reflect.Value) error {
 
 	updates = jtypes.Resolve(updates)
 
-	for _, key := range updates.MapKeys() {
+	keys := updates.MapKeys()
+	values := make([]reflect.Value, len(keys))
 
-		value := updates.MapIndex(key)
+	for i, key := range keys {
+
+		values[i] = updates.MapIndex(key)
 
 		// A value that contains the matched object (e.g. $) is
 		// stored as a copy of its current value. Storing the
-		// reference would make the object contain itself.
-		if containsMap(value, item.Pointer()) {
-			if value, err = f.clone(jtypes.Resolve(value)); err != nil {
+		// reference would make the object contain itself. The
+		// copies are all taken before the object is changed,
+		// so that they do not depend on the order of the keys.
+		if containsMap(values[i], item.Pointer()) {
+			if values[i], err = f.clone(jtypes.Resolve(values[i])); err != nil {
 				return newEvalError(ErrClone, nil, nil)
 			}
 		}
+	}
 
-		item.SetMapIndex(key, value)
+	for i, key := range keys {
+		item.SetMapIndex(key, values[i])
 	}
 
 	return nil
